@@ -124,7 +124,7 @@ def _plain_eq(x, y):
 ALLOPS = O.CHEAP + O.ROOTS + O.TRANSFORMS + O.PARTS + ["hrms", "uss", "swe"]
 
 
-@harness(P, quick=grid(op=sorted(set(ALLOPS)), g=["G1"]) + grid(op=O.PEAKS, g=["P4"]), thorough=grid(op=sorted(set(ALLOPS)), g=["G2", "D6"]), max_paths=3000)
+@harness(P, quick=grid(op=sorted(set(ALLOPS)), g=["G1"]) + grid(op=O.PEAKS, g=["P4"]), thorough=grid(op=sorted(set(ALLOPS)), g=["G2", "D6"]) + grid(op=O.PEAKS_SLOW, g=["P4"]), max_paths=3000)
 def accessor_ops(env, op, g):
     """The DataArray (and the numpy buffer behind it), wind and depth arrays are unchanged after the call."""
     from vt.props.c02 import PG
@@ -152,7 +152,7 @@ def accessor_ops(env, op, g):
         same(env, b_aux, aux, "%s: wind/depth arguments" % op)
 
 
-@harness(P, quick=[dict(method=m, dconv=a, qconv=b) for m in ("nearest", "idw", "bbox") for a, b in ((180, 360), (360, 180))], thorough=grid(method=["nearest", "idw", "bbox"], dconv=[180, 360], qconv=[360, 180], ns=[2, 3]), max_paths=3000, time_budget=240, time_budget_thorough=1500, hard_timeout_thorough=1800)
+@harness(P, quick=[dict(method="bbox", dconv=180, qconv=360), dict(method="bbox", dconv=360, qconv=180), dict(method="nearest", dconv=180, qconv=360), dict(method="idw", dconv=180, qconv=360)], thorough=grid(method=["nearest", "idw", "bbox"], dconv=[180, 360], qconv=[360, 180], ns=[2, 3]), max_paths=3000, time_budget=150, time_budget_thorough=1500, hard_timeout_thorough=1800)
 def selection(env, method, dconv, qconv, ns=2):
     """sel: the dataset, the query arrays (caller-owned numpy buffers) and the optional station arrays are unchanged."""
     from vt.props.c14 import _dset, _lon
